@@ -36,6 +36,9 @@ theorem maxL_le {l : List α} {b : α} (hb : 0 ≤ b) (h : ∀ x ∈ l, x ≤ b)
 
 /-! ### the criterion dominates the feasibility residual -/
 
+theorem cmax_le_cmax {a b a' b' : α} (h1 : a ≤ a') (h2 : b ≤ b') : cmax a b ≤ cmax a' b' := by
+  rw [cmax_eq_max, cmax_eq_max]; exact max_le_max h1 h2
+
 theorem hinge_le_abs_shifted (g m ro : α) (hro : 0 < ro) (hm : 0 ≤ m) :
     cmax g 0 ≤ absv (cmax g (-m / ro)) := by
   rw [cmax_eq_max, cmax_eq_max, absv_eq_abs]
@@ -50,11 +53,10 @@ theorem maxL_hinge_le (ro : α) (hro : 0 < ro) :
   | [], _, _, _ => by simp [maxL]
   | _ :: _, [], hl, _ => by simp at hl
   | g :: gs, m :: ms, hl, hpos => by
-    simp only [List.map_cons, List.zipWith_cons_cons, maxL, cmax_eq_max]
+    simp only [List.map_cons, List.zipWith_cons_cons, maxL]
     have h1 := hinge_le_abs_shifted g m ro hro (hpos m (by simp))
     have h2 := maxL_hinge_le ro hro gs ms (by simpa using hl) (fun m' hm' => hpos m' (by simp [hm']))
-    rw [cmax_eq_max] at h1
-    exact max_le_max (by simpa [cmax_eq_max] using h1) h2
+    exact cmax_le_cmax h1 h2
 
 /-- `criterion_ge_violation` at the level of one state -/
 theorem criterion_ge_violation_st (c : St α) (miu : List α) (ro : α) (hro : 0 < ro)
@@ -112,7 +114,7 @@ theorem alInit_inv (cs : List (C α)) (x0 : List α) (ro1 : α) (hro : 0 < ro1) 
       simp only [List.mem_map] at hm
       obtain ⟨_, _, rfl⟩ := hm
       exact le_refl _
-    · simp
+    · simp [alInit]
 
 theorem alStep_inv (cs : List (C α)) (p : Params α) (hgamma : 1 < p.gamma) (hmiuMax : 0 ≤ p.miuMax)
     (s : ALState α) (a : Answer α) (ha : Consistent cs a) (hinv : ALInv cs s) :
@@ -159,7 +161,7 @@ theorem alStep_inv (cs : List (C α)) (p : Params α) (hgamma : 1 < p.gamma) (hm
       simp only [alStep, hstop, if_true]
     have e5 : (alStep cs p s a).1.miu = s.miu := by
       simp only [alStep, hstop, if_true]
-    refine ⟨fun h => by rw [e1] at h; cases h, fun h => ?_, (by rw [e2]; exact hbesteq),
+    refine ⟨fun h => (by rw [e1] at h; cases h), fun h => ?_, (by rw [e2]; exact hbesteq),
       (by rw [e2, e4]; exact hbest2), (by rw [e5]; exact hinv.miu_nonneg)⟩
     rw [e3] at h
     by_cases hconv : alConverged p s a = true
